@@ -72,6 +72,7 @@ type Plan struct {
 	CIDR      int
 	ReclaimMs int
 	Init      [3]string // absent | alive | dead | left
+	InitV6    bool      `json:",omitempty"` // the subjects start at fd00::5 instead of 10.0.0.11 (when the allowlist admits it)
 	Steps     []Step
 }
 
@@ -80,6 +81,11 @@ func genPlan(t *rapid.T) Plan {
 		ReclaimMs: rapid.SampledFrom([]int{0, 2000, 2000}).Draw(t, "reclaim")}
 	for i := range p.Init {
 		p.Init[i] = rapid.SampledFrom([]string{"absent", "absent", "alive", "dead", "left"}).Draw(t, "init")
+	}
+	p.InitV6 = rapid.IntRange(0, 2).Draw(t, "initv6") == 0
+	if p.InitV6 {
+		// IPv6 members only exist where the allowlist admits fd00::5
+		p.CIDR = rapid.SampledFrom([]int{3, 4, 6}).Draw(t, "cidr6")
 	}
 	p.Steps = rapid.SliceOfN(rapid.Custom(func(t *rapid.T) Step {
 		switch rapid.IntRange(0, 9).Draw(t, "k") {
@@ -182,11 +188,25 @@ func run(pl Plan) (res vfx.Result) {
 		}
 		return false
 	}
+	initAddr := []byte{10, 0, 0, 11}
+	if pl.InitV6 {
+		initAddr = net.ParseIP("fd00::5")
+		labels["ipv6-members"] = true
+		resp6 := p.AddPeer("x1v6", "fd00::5", 7946, vsn)
+		resp6.OnLeaf = func(from string, l wire.Leaf) bool {
+			if pg, ok := l.V.(*wire.Ping); ok {
+				dst := net.JoinHostPort(net.IP(pg.SourceAddr).String(), fmt.Sprint(pg.SourcePort))
+				resp6.SendLeaves(dst, [][]byte{wire.Encode(wire.AckRespMsg, &wire.Ack{SeqNo: pg.SeqNo})}, puppet.Carrier{})
+				return true
+			}
+			return false
+		}
+	}
 	for i, st := range pl.Init {
 		if st == "absent" {
 			continue
 		}
-		p.Inject(h.Addr(), [][]byte{puppet.Claim{Kind: "alive", Node: names[i], Inc: 1, Addr: []byte{10, 0, 0, 11}, Port: 7946, Vsn: vsn}.Leaf()}, puppet.Carrier{})
+		p.Inject(h.Addr(), [][]byte{puppet.Claim{Kind: "alive", Node: names[i], Inc: 1, Addr: initAddr, Port: 7946, Vsn: vsn}.Leaf()}, puppet.Carrier{})
 		switch st {
 		case "dead":
 			p.Inject(h.Addr(), [][]byte{puppet.Claim{Kind: "dead", Node: names[i], Inc: 1, From: "h1"}.Leaf()}, puppet.Carrier{})
